@@ -17,7 +17,7 @@ from .. import namesim
 PROP = "C05"
 LEVEL = "exploration"
 RUNS = {"quick": 1500, "thorough": 60000}
-TIME_CAP = {"quick": 300, "thorough": 1500}
+TIME_CAP = {"quick": 300, "thorough": 900}
 CHUNK = 8          # runs per worker task (cost-aware: keeps the time cap responsive)
 RULE = ("seeded sibling-name multisets for AKAI volumes (41-character alphabet) and Roland performances (ASCII incl. separators, quotes, "
         "control bytes), biased to near-collisions: stems with and without -L/-R/ L/ R, several separators, duplicates, a stem equal to "
